@@ -7,6 +7,7 @@
             reject <i> <component> <detail>         first difference (i = index of the event)
 -/
 import AJ.Model.Run
+import AJ.Model.Lax
 import AJ.Model.Full
 namespace AJ.Dyn
 open AJ.Run
@@ -119,7 +120,10 @@ def tickWhyA (c : Cfg) (st : StA) : String :=
     advancing while something urgent is pending, a start set that differs) is recorded, the observed behaviour is
     adopted and the replay goes on; a difference the replay cannot get past ends it. The answer lists the
     differences: `ok n` or `diff n | i comp detail | …` (at most 6). -/
-def replayA (c : Cfg) (evs : List ObsA) : String := Id.run do
+def replayA (c0 : Cfg) (evs : List ObsA) (laxTime noWindow : Bool := false) : String := Id.run do
+  -- `noWindow`: the model of `c.noWindow`; `laxTime`: the model `stepAL` (see AJ/Model/Lax.lean and Proofs/LaxA.lean)
+  let c := if noWindow then c0.noWindow else c0
+  let stepA := fun (c : Cfg) (st : StA) (e : EvA) => if laxTime then stepAL c st e else AJ.Run.stepA c st e
   let mut st := StA.init
   let mut i := 0
   let mut diffs : Array String := #[]
@@ -367,7 +371,9 @@ def handle (cmd : String) (toks : List String) : String :=
       if cmd = "replayA" then
         match items.mapM (fun s => parseEvA (s.replace "_" " ")) with
         | none => "bad-request event"
-        | some l => replayA c l
+        | some l =>
+          let mode := (getKV kv "mode").getD "strict"
+          replayA c l (mode = "laxtime" || mode = "laxall") (mode = "laxall")
       else
         match items.mapM parseEvB, (getKV kv "diag").bind parseDiag with
         | some l, some d => replayB c l d
